@@ -224,9 +224,10 @@ class Fault:
 
 class Arrival:
     __slots__ = ("seq", "t_written", "t", "node", "conn", "client_id", "api", "key", "ver", "corr",
-                 "body", "reply", "t_reply", "t_end", "fault", "applied", "extra")
+                 "body", "reply", "t_reply", "t_end", "fault", "applied", "extra", "delivered")
 
     def __init__(self):
+        self.delivered = False     # the recorded reply reached the client (connection alive until then)
         self.reply = None
         self.t_reply = None
         self.t_end = None
@@ -249,38 +250,49 @@ class ReqCtx:
         self.arrival = arrival
         self.replied = False
         self.override = None      # fault: replace reply by error / drop / swallow
+        self._out = None
         self.extra_delay = 0.0
 
     def reply(self, body):
+        """Answer the request.  Replies leave a connection strictly in request order, as on a real
+        broker (which does not even read the next request before the previous one is answered)."""
         if self.replied:
             return
         self.replied = True
         c = self.cluster
         a = self.arrival
         ov = self.override
+        self._out = None
         if ov is not None:
             kind = ov[0]
             if kind == "apply_error":
                 body = c.error_reply(self.key, self.ver, self.body, ov[1])
             elif kind == "apply_drop":
-                a.t_end = c.loop._vtime
-                self.conn.close(reset=True)
+                self._out = ("drop",)
+                c._flush(self.conn)
                 return
             elif kind == "no_reply":
                 # a reply is only ever lost together with everything behind it on that connection
-                self.conn.muted = True
+                self._out = ("mute",)
+                c._flush(self.conn)
                 return
         a.reply = body
         a.t_reply = c.loop._vtime
-        if self.conn.closed or getattr(self.conn, "muted", False):
-            return
         try:
             payload = RP.encode_response(self.key, self.ver, self.hdr["correlation_id"], body)
         except Exception as e:
             c.harness_errors.append("cannot encode reply api %d v%d: %r body=%r" % (self.key, self.ver, e, body))
+            self._out = ("none",)
+            c._flush(self.conn)
             return
-        self.conn.send_frame(payload, delay=None if not self.extra_delay else self.extra_delay + c.net.latency())
-        a.t_end = self.conn._s2c_t
+        self._out = ("send", payload)
+        c._flush(self.conn)
+
+    def no_reply(self):
+        """The request is complete and has no reply (acks=0)."""
+        self.replied = True
+        self._out = ("none",)
+        self.cluster._flush(self.conn)
 
 
 class Cluster:
@@ -451,6 +463,9 @@ class Cluster:
         self.arrivals.append(a)
         self.loop.events += 1
         ctx = ReqCtx(self, node, conn, hdr, body, a)
+        if not hasattr(conn, "order"):
+            conn.order = []
+        conn.order.append(ctx)
         rng = self.versions.get(a.key)
         if rng is None or not (rng[0] <= a.ver <= rng[1]):
             a.extra["outside_advertised_range"] = True
@@ -463,13 +478,16 @@ class Cluster:
                 self._post(a)
                 return
             if f.act == "drop":
-                a.t_end = self.loop._vtime
-                conn.close(reset=True)
+                ctx.replied = True
+                ctx._out = ("drop",)
+                self._flush(conn)
                 self._post(a)
                 return
             if f.act == "swallow":
                 # never applied, never answered (nor is anything behind it on this connection)
-                conn.muted = True
+                ctx.replied = True
+                ctx._out = ("mute",)
+                self._flush(conn)
                 self._post(a)
                 return
             if f.act in ("apply_error",):
@@ -500,6 +518,26 @@ class Cluster:
     def _post(self, a):
         if self.on_arrival is not None:
             self.on_arrival(a)
+
+    def _flush(self, conn):
+        order = getattr(conn, "order", None)
+        if order is None:
+            return
+        while order and getattr(order[0], "_out", None) is not None:
+            ctx = order.pop(0)
+            out = ctx._out
+            a = ctx.arrival
+            if out[0] == "send":
+                if conn.closed or getattr(conn, "muted", False):
+                    continue
+                conn.send_frame(out[1], delay=None if not ctx.extra_delay else ctx.extra_delay + self.net.latency())
+                a.t_end = conn._s2c_t
+                a.delivered = True
+            elif out[0] == "drop":
+                a.t_end = self.loop._vtime
+                conn.close(reset=True)
+            elif out[0] == "mute":
+                conn.muted = True
 
     # ---------------------------------------------------------- error replies
     def error_reply(self, key, ver, body, code):
@@ -667,6 +705,7 @@ class _NodeHandler:
         for a in self.cluster.arrivals:
             if a.conn == conn.conn_id and (a.t_end is None or a.t_end > t):
                 a.t_end = t
+                a.delivered = False
 
     def on_frame(self, conn, frame, t_written=None):
         self.cluster.on_frame(self.node, conn, frame, t_written)
@@ -714,8 +753,8 @@ def h_produce(c, ctx):
         topics.append({"name": t["name"], "partitions": parts})
     ctx.arrival.extra["appended"] = [(sb.base_offset, sb.count) for sb in appended]
     if body["acks"] == 0:
-        ctx.replied = True
         ctx.arrival.extra["acks0"] = True
+        ctx.no_reply()
         return
     r = {"topics": topics}
     if ver >= 1:
